@@ -75,9 +75,35 @@ def subset_case(sess, suite, n, t, kind, sub_idx, key=None):
     sess.count("n,t,k=%d,%d,%d" % (n, t, k))
 
 
+def large_threshold(sess, suite, t, ks):
+    """thresholds beyond one byte: the signer's and coordinator's guards compare full u16 values"""
+    rng = sess.rng
+    fld = Fld(suite)
+    r, shares, pkp = dealer(sess, suite, t, t)
+    if not r.ok:
+        return
+    kpr = sess.call("keypkg %s ss=%s" % (suite, shares[0]), EXACT, "keypkg")
+    me = ss_fields(shares[0])["id"]
+    ids = [ss_fields(x)["id"] for x in shares]
+    nn = commit(sess, suite, kp_fields(kpr["kp"])["share"])
+    f = nonces_fields(nn)
+    for k in ks:
+        cm = ";".join("%s:%s:%s" % (i, f["D"], f["E"]) for i in ids[:k])
+        req = "sign %s msg=aa comms=%s nonces=%s kp=%s" % (suite, cm, nn, kpr["kp"])
+        s = sess.call(req, EXACT, "sign-few-large-t")
+        sess.oracle(s.err == "IncorrectNumberOfCommitments", "threshold %d: signer did not refuse a package with %d participants (%s)" % (t, k, s.raw[:60]), [req[:300]])
+        zs = {i: fld.enc(fld.rand(rng)) for i in ids[:k]}
+        a = aggregate(sess, suite, "aa", cm, zs, pkp, "first", EXACT)
+        sess.oracle(a.err == "IncorrectNumberOfShares", "threshold %d: coordinator did not refuse %d shares (%s)" % (t, k, a.raw[:60]), [sess.records[-1][0][:300]])
+        sess.case("large|%s|%d|%d" % (suite, t, k))
+    sess.count("large-threshold")
+
+
 def generate(sess):
     rng = sess.rng
     thorough = sess.tier != "quick"
+    large_threshold(sess, "toy31", 256, [1, 2, 255])
+    large_threshold(sess, "toy31", 300, [1, 43, 44, 45, 299])
     for suite in TOY_SUITES:
         for n in range(2, 7 if thorough else 6):
             for t in range(2, n + 1):
